@@ -143,6 +143,9 @@ def _setup_cluster_df(
         else:
             print("\nCluster level outlier probability column not found. Setting values to {p}".format(p=outlier_prob))
             cluster_df.loc[:, "outlier_prob"] = outlier_prob
+    # An all-integer column (e.g. every entry written as 0) is read as int64, which cannot hold the
+    # fractional probabilities assigned below
+    cluster_df["outlier_prob"] = cluster_df["outlier_prob"].astype(float)
     if not assign_loss_prob:
         if outlier_prob == 0:
             cluster_df.loc[:, "outlier_prob"] = outlier_prob
